@@ -39,7 +39,27 @@ type ZvOdd struct {
 	U8  uint8   `json:"u8"`
 	F32 float32 `json:"f32"`
 	R   rune    `json:"r"`
+	// more kinds, named scalar types, a duration
+	I16  int16         `json:"i16"`
+	U32  uint32        `json:"u32"`
+	U64  uint64        `json:"u64"`
+	D    time.Duration `json:"d"`
+	Col  ZvColor       `json:"col"`
+	Temp ZvCelsius     `json:"temp"`
 }
+
+type ZvColor string
+type ZvCelsius float64
+
+// ZvPriv has an unexported field: the converter fills it (unexportHelper), so
+// it belongs to the struct's record on the way back as well.
+type ZvPriv struct {
+	Name  string `json:"name"`
+	cache int64
+	N     int `json:"n"`
+}
+
+func (p *ZvPriv) ZvTag() string { return "zvpriv" }
 
 // ZvBox: containers of basic kinds, byte slices, maps, times.
 type ZvBox struct {
@@ -187,6 +207,14 @@ func (h *ZvHost) EchoNode(x *ZvNode) *ZvNode { giLastArg = x; return x }
 func (h *ZvHost) EchoWrap(x *ZvWrap) *ZvWrap { giLastArg = x; return x }
 func (h *ZvHost) EchoPair(x *ZvPair) *ZvPair { giLastArg = x; return x }
 func (h *ZvHost) EchoEmb(x *ZvEmb) *ZvEmb    { giLastArg = x; return x }
+func (h *ZvHost) EchoPriv(x *ZvPriv) *ZvPriv { giLastArg = x; return x }
+
+// AnyLeaf hands its argument back through a result of INTERFACE type, TakeAny
+// takes and returns an interface, PairA hands back a pointer FIELD of its
+// argument (nil when the record has none).
+func (h *ZvHost) AnyLeaf(x *ZvLeaf) ZvAny    { giLastArg = x; return x }
+func (h *ZvHost) TakeAny(x ZvAny) ZvAny      { giLastArg = x; return x }
+func (h *ZvHost) PairA(x *ZvPair) *ZvLeaf    { giLastArg = x; return x.A }
 func (h *ZvHost) EchoTwin(x *ZvTwin) *ZvTwin { giLastArg = x; return x }
 func (h *ZvHost) EchoCrew(x *ZvCrew) *ZvCrew { giLastArg = x; return x }
 func (h *ZvHost) EchoNest(x *zygo.NestOuter) *zygo.NestOuter {
@@ -221,6 +249,7 @@ var giTypes = []giTypeInfo{
 	{"zvtower", "ZvTower", func() any { return &ZvTower{} }, "EchoTower", ""},
 	{"zvtwin", "ZvTwin", func() any { return &ZvTwin{} }, "EchoTwin", "ZvTwin"},
 	{"zvcrew", "ZvCrew", func() any { return &ZvCrew{} }, "EchoCrew", ""},
+	{"zvpriv", "ZvPriv", func() any { return &ZvPriv{} }, "EchoPriv", ""},
 	{"zvhost", "ZvHost", func() any { return &ZvHost{} }, "", ""},
 }
 
